@@ -321,7 +321,7 @@ class Executor(Engine):
                 raise Unsupported(f"contract parameter {p} of {q} not bound")
             env[p] = binding[p]
         req, rai, ens = [], [], []
-        may, rai_unch = [], []
+        may, rai_unch, may_unch = [], [], []
         pure = False
         modifies = []
         pre = pre_state or st
@@ -346,6 +346,8 @@ class Executor(Engine):
                         pass
                     elif f == "may_raise":
                         may += list(self.ev(cnode.args[0], env, pre).names)
+                        if any(kw.arg == "unchanged" and ast.literal_eval(kw.value) for kw in cnode.keywords):
+                            may_unch += list(self.ev(cnode.args[0], env, pre).names)
                     elif f == "raises":
                         names = self.ev(cnode.args[0], env, pre).names
                         when = TRUE
@@ -373,7 +375,7 @@ class Executor(Engine):
         finally:
             self.in_spec -= 1
         return {"requires": req, "raises": rai, "ensures": ens, "pure": pure, "modifies": modifies, "env": env,
-                "may_raise": may, "raises_unchanged": rai_unch}
+                "may_raise": may, "raises_unchanged": rai_unch, "may_unchanged": may_unch}
 
     def ev_post(self, node, env, post, pre, marker="old", pre_env=None):
         """Evaluate a postcondition: old(e) sub-expressions are evaluated in the pre-state."""
@@ -431,8 +433,9 @@ class Executor(Engine):
             outs.append((st.assume(when), Outcome("raise", exc=names[0])))
             normal = normal.assume(Not(when))
         for name in parts["may_raise"]:
-            # may_raise: the callee may fail here for reasons the contract leaves open; state is havocked like a normal return
-            s_exc = st if parts["pure"] else self.havoc_modifies(q, parts, binding, st)
+            # may_raise: the callee may fail here for reasons the contract leaves open
+            unchanged = parts["pure"] or name in parts["may_unchanged"]
+            s_exc = st if unchanged else self.havoc_modifies(q, parts, binding, st)
             outs.append((s_exc, Outcome("raise", exc=name)))
         rty = self.result_type(q)
         result = c.fresh("r_" + q.split(".")[-1], rty)
@@ -624,10 +627,44 @@ class Executor(Engine):
             if not isinstance(src, VRef) or src.cls != "Record":
                 raise Unsupported("model_copy of " + type(src).__name__)
             s2, r = s1.allocate(c, "Record", "copy")
+            s_before = s2
+            s2 = self.cut_fresh_distinct(s2, r, self.where(call))
             for f in FIELDS["Record"]:
                 s2 = s2.set_field(c, r, f, s1.field(c, src, f))
+            s2 = self.cut_frame_for_converters(s_before, s2, self.where(call))
             return [(s2, r)]
         raise Unsupported(f"library call {q}")
+
+    def cut_fresh_distinct(self, st, r, where):
+        """Intermediate lemma (proved as its own obligation, then assumed): a freshly allocated record is none of
+        the records of the converters in scope. Makes the later frame reasoning a one-step instantiation."""
+        c = self.ctx
+        for name, v in sorted(st.env.items()):
+            if isinstance(v, VRef) and v.cls == "Converter":
+                recs = st.field(c, v, "records")
+                i = c.bvar("i", "Int")
+                fact = ForAll([i], Implies(And(Le(Int(0), i), Lt(i, recs.n)), Not(Eq(recs.at(i).t, r.t))), pats=[[recs.at(i).t]])
+                c.oblige(f"{where}:lemma: fresh record is not in {name}.records", "lemma", st.pc, fact, where)
+                st = st.assume(fact)
+        return st
+
+    def cut_frame_for_converters(self, before, after, where):
+        """Intermediate lemma (own obligation, then assumed): initialising a fresh record leaves every field of the
+        records of the converters in scope unchanged — stated per field so that it works as a rewrite rule."""
+        c = self.ctx
+        for name, v in sorted(after.env.items()):
+            if isinstance(v, VRef) and v.cls == "Converter":
+                recs = before.field(c, v, "records")
+                for f in FIELDS["Record"]:
+                    a0, a1 = before.harr(c, "Record", f), after.harr(c, "Record", f)
+                    if a0.s == a1.s:
+                        continue
+                    i = c.bvar("i", "Int")
+                    fact = ForAll([i], Implies(And(Le(Int(0), i), Lt(i, recs.n)), Eq(Select(a1, recs.at(i).t), Select(a0, recs.at(i).t))),
+                                  pats=[[Select(a1, recs.at(i).t)]])
+                    c.oblige(f"{where}:lemma: {f} of {name}.records unchanged by initialising the fresh record", "lemma", after.pc, fact, where)
+                    after = after.assume(fact)
+        return after
 
     def set_as_list(self, sv):
         """Some list of the distinct elements of a set (iteration order of a set: unspecified but fixed)."""
@@ -691,8 +728,11 @@ class Executor(Engine):
                 if not smt.is_false(bad):
                     outs.append((s1.assume(bad), Outcome("raise", exc="ValidationError")))
                 s2, r = s1.assume(Not(bad)).allocate(c, "Record", "rec")
+                s_before = s2
+                s2 = self.cut_fresh_distinct(s2, r, self.where(call))
                 for f in FIELDS["Record"]:
                     s2 = s2.set_field(c, r, f, b[f])
+                s2 = self.cut_frame_for_converters(s_before, s2, self.where(call))
                 outs.append((s2, r))
             return outs
         raise Unsupported("constructor " + cls)
